@@ -347,6 +347,56 @@ theorem per_thread_counter_collides :
       macroAccepted iq ip = true :=
   ⟨[0, 1], 0, 1, 0, 0, 1, 0, by decide⟩
 
+/-! ## unwinding: a caught panic leaves no residue in the thread -/
+
+/-- A `Value::from(Serde(x))` conversion that is entered outside any conversion, does anything inside
+    (nested conversions, parking and taking back engine values, in any order and number) and is then
+    left by a PANIC which the host catches, leaves the thread's serialisation flag exactly as it was
+    and no guard alive: what `impl Serialize for Value` emits afterwards (`tojson`, JSON auto-escape)
+    is what it emitted before — on this thread as on any other. -/
+theorem caught_panic_restores_thread_state (t : ThreadState) (ht : t.guards = []) (body : List ConvEv) :
+    (panickingConversion true t body).serializing = t.serializing ∧
+    (panickingConversion true t body).guards = [] ∧
+    emitsData (panickingConversion true t body) = emitsData t := by
+  have h0 : FlagInv t.serializing t := Or.inl ⟨ht, rfl⟩
+  have h1 := FlagInv.run t.serializing body _ (FlagInv.step t.serializing t .enter h0)
+  obtain ⟨hg, hs⟩ := unwind_all t.serializing _ _ h1 rfl
+  exact ⟨hs, hg, by unfold emitsData; unfold panickingConversion; rw [hs]⟩
+
+example : -- a context whose Serialize impl parks a value, starts a nested conversion and panics there
+    (panickingConversion true ThreadState.clean [.park 7, .take, .park 8, .enter, .park 9]).serializing = false ∧
+    ((ThreadState.clean.step .enter).run [.park 7, .take, .park 8, .enter, .park 9]).serializing = true := by
+  decide
+
+/-- the same holds for conversions that return (with a value, or an invalid value for an `Err`):
+    any well-formed or ill-formed sequence of events keeps the flag tied to the live guards -/
+theorem conversion_keeps_flag_invariant (t : ThreadState) (ht : t.guards = []) (evs : List ConvEv) :
+    FlagInv t.serializing (t.run evs) :=
+  FlagInv.run t.serializing evs t (Or.inl ⟨ht, rfl⟩)
+
+/-- handles handed out while parking are fresh: a value leaked into the registry by an unwound
+    conversion can never be returned for a later handle -/
+theorem parked_handles_are_fresh (evs : List ConvEv) (p : Nat × Nat)
+    (hp : p ∈ (ThreadState.clean.run evs).handles) : p.1 ≤ (ThreadState.clean.run evs).lastHandle :=
+  HandlesInv.run evs ThreadState.clean (by intro p hp; simp [ThreadState.clean] at hp) p hp
+
+/-- Why the guard must reset while unwinding (the seeded change C15-4, `&& !std::thread::panicking()`):
+    one caught panic leaves the thread marked forever, and later conversions no longer clear it. -/
+theorem seeded_guard_leaves_thread_marked :
+    (panickingConversion false ThreadState.clean []).serializing = true ∧
+    emitsData (panickingConversion false ThreadState.clean []) = false ∧
+    emitsData (((panickingConversion false ThreadState.clean []).step .enter).step .leave) = false := by
+  decide
+
+/-- a loader that panics (the unwind is caught by the caller) leaves the store identical -/
+theorem panicking_lookup_changes_nothing (c : LtCfg → Source → Bool) (s : Store) (n : Name)
+    (h : (s.get c n).2 = .panicked) : (s.get c n).1 = s :=
+  get_failure_not_cached c s n (by intro t ht; rw [h] at ht; cases ht)
+
+example :
+    let s : Store := { loader := some (fun _ => .panics), cfg := cfgA, borrowed := [], owned := [] }
+    (s.get (fun _ _ => true) 0).2 = .panicked := by decide
+
 /-! ## tie to the source text -/
 
 /-- The structural facts of `loader.rs`, `environment.rs`, `template.rs`, `lexer.rs` and
@@ -354,14 +404,17 @@ theorem per_thread_counter_collides :
     the model was written against: the classification of every `Environment::set_*` into load-time /
     loader / run-time, the fields of the load-time configuration, the event order in both
     `insert_cow` arms (compile, evict, insert — no early return, no look at the stored entry), the
-    lookup order of `get`, the tiers `remove`/`clear` touch, the process-wide `STATE_ID`, and the
-    derived `Clone`s. -/
+    lookup order of `get`, the tiers `remove`/`clear` touch, the process-wide `STATE_ID`, the
+    derived `Clone`s, every `thread_local!` of the crate, every `Drop` guard that restores one (its
+    condition must be the guard's own flag and nothing else) and the clearing of pooled buffers. -/
 theorem source_tables_match_model :
     MJ.Gen.c15Setters = modelSetters ∧
     MJ.Gen.c15TemplateConfig = modelTemplateConfig ∧ MJ.Gen.c15WhitespaceConfig = modelWhitespaceConfig ∧
     MJ.Gen.c15InsertArms = modelInsertArms ∧ MJ.Gen.c15GetOrder = modelGetOrder ∧
     MJ.Gen.c15RemoveTiers = modelRemoveTiers ∧ MJ.Gen.c15ClearTiers = modelClearTiers ∧
-    MJ.Gen.c15StateId = modelStateId ∧ MJ.Gen.c15CloneDerives = modelCloneDerives := by
+    MJ.Gen.c15StateId = modelStateId ∧ MJ.Gen.c15CloneDerives = modelCloneDerives ∧
+    MJ.Gen.c15ThreadLocals = modelThreadLocals.map (·.1) ∧ MJ.Gen.c15DropGuards = modelDropGuards ∧
+    MJ.Gen.c15PoolTakeClears = modelPoolTakeClears := by
   decide
 
 end MJ.C15
